@@ -264,8 +264,8 @@ theorem caught_error_keeps_heart_beat (w : World) (self : Nat) :
     list is untouched; `heart_beat_index` keeps its (possibly stale) value and `num_hb_to_do = num_hb_objs` stays
     non-zero until the next real round, so removals in between are "compensated" (harmless: `hb_index_in_bounds`) -/
 theorem no_round_without_heartbeat_flag (sc : Scripts) (w : World) (h : hbOn w.tflags = false) :
-    (tickCore sc w).2 = [.tickOff, .tickEnd] ∧ (tickCore sc w).1.hbs = w.hbs ∧ (tickCore sc w).1.idx = w.idx ∧
-    (tickCore sc w).1.todo = (w.hbs.length : Int) ∧ (tickCore sc w).1.cur = none ∧ (tickCore sc w).1.flag = false := by
+    (tickRound sc w).2 = [.tickOff, .tickEnd] ∧ (tickRound sc w).1.hbs = w.hbs ∧ (tickRound sc w).1.idx = w.idx ∧
+    (tickRound sc w).1.todo = (w.hbs.length : Int) ∧ (tickRound sc w).1.cur = none ∧ (tickRound sc w).1.flag = false := by
   rw [tick_eq_ref]
   unfold tickRef
   rw [h]
@@ -275,7 +275,7 @@ example : hbOn 0 = false ∧ hbOn 1 = false ∧ hbOn 2 = true ∧ hbOn 3 = true 
 
 /-- with the flag set and a non-empty list the round starts at index 0 with `num_hb_to_do = num_hb_objs` -/
 theorem round_entered_iff (sc : Scripts) (w : World) :
-    (tickCore sc w).2.head? = some (if hbOn w.tflags then Ev.tickBegin else Ev.tickOff) := by
+    (tickRound sc w).2.head? = some (if hbOn w.tflags then Ev.tickBegin else Ev.tickOff) := by
   rw [tick_eq_ref]
   unfold tickRef
   cases hbOn w.tflags with
@@ -286,5 +286,26 @@ theorem round_entered_iff (sc : Scripts) (w : World) :
     · rfl
     · rfl
 
+
+/-- **an error outside every heart_beat switches off nobody** (call_out callbacks, reset()/clean_up(), commands): with
+    current_heart_beat = 0 - which `NV.Gen.C11.chbTail` guarantees for everything call_heart_beat runs after the round -
+    error_handler leaves the heart-beat list, the cursor and the set of objects alone -/
+theorem error_outside_heart_beat_switches_off_nobody (w : World) (h : w.cur = none) :
+    (errorEntry w).hbs = w.hbs ∧ (errorEntry w).idx = w.idx ∧ (errorEntry w).todo = w.todo ∧
+    (errorEntry w).dead = w.dead ∧ (errorEntry w).cur = none := by
+  unfold errorEntry
+  rw [errorHandler_eq_ref]
+  unfold errorHandlerRef
+  simp [h]
+
+/-- ... and the specification says the same: an `err` event while no heart_beat is running changes no entry -/
+theorem oracle_error_outside_heart_beat (j : JState) (o : Nat) (h : j.cur = none) :
+    (judge1 j (.err o)).all = j.all ∧ (judge1 j (.err o)).bad = j.bad := by
+  have e : judge1 j (.err o) = (if j.inRound then { j with expect := .abort } else j) := by
+    simp only [judge1, h]
+  rw [e]
+  split <;> exact ⟨rfl, rfl⟩
+
+example : (errorEntry { hbs := [⟨2, 1, 1⟩, ⟨3, 2, 2⟩], cap := 32, cur := none }).hbs = [⟨2, 1, 1⟩, ⟨3, 2, 2⟩] := by decide
 
 end NV.C11
